@@ -35,10 +35,10 @@ def run(ctx, col, tier):
     col.not_decided += ["the partition property as a statement over all trees (follows from the "
                         "clauses above for well-formed trees, not proved here)"]
 
-    get_branches(ctx, col)
-    thresholds(ctx, col)
-    get_paths(ctx, col)
-    branch_tree(ctx, col)
+    col.guard(get_branches, ctx, col)
+    col.guard(thresholds, ctx, col)
+    col.guard(get_paths, ctx, col)
+    col.guard(branch_tree, ctx, col)
 
 
 def _callback_of(ctx, d, kw):
@@ -132,6 +132,17 @@ def get_branches(ctx, col):
                   f"exactly one child the stem (and for an unbranched chain the only branch) is lost",
                   stmt="flush", facts={"pending_bound_to": pending_name})
         if used:
+            # the chain is closed iff it holds at least one edge (two or more node ids)
+            guards = [n for n in own_nodes(d) if isinstance(n, ast.If) and n.lineno > st.lineno
+                      and pending_name in names_in(n.test)
+                      and any(isinstance(x, ast.Call) and (dotted(x.func) or "").endswith("Branch") for x in ast.walk(n))]
+            if guards:
+                tab = tables.count_table(repo, d.module, guards[0].test)
+                col.judge(tab is not None, tab is not None and tab[1:] == [False, True, True, True], "R-FLUSH", d.qualname, d.loc(guards[0]),
+                          "the open chain is closed iff it has at least one edge (>= 2 node ids)",
+                          f"{norm_src(guards[0].test)} -> {tab}",
+                          f"`{norm_src(guards[0].test)}` closes the chain for lengths {[k for k, v in enumerate(tab or []) if v]}; a stem of "
+                          f"a single edge (2 ids) must be closed, a lone root id (1) must not", stmt="flush-threshold")
             # the consumer must build a branch from it
             mk = [x for x in own_nodes(d) if isinstance(x, ast.Call) and (dotted(x.func) or "").endswith("Branch")
                   and pending_name in names_in(x) and x.lineno > st.lineno]
